@@ -196,9 +196,10 @@ class ExcelCompiler:
                 return '=' + a_cell.formula.python_code
             elif isinstance(a_cell.value, np.float64):
                 return float(a_cell.value)
-            elif isinstance(a_cell.value, str) and a_cell.value.startswith('='):
-                # text which would be read back as code, is saved as the code for the text
-                return '=' + repr(a_cell.value)
+            elif (isinstance(a_cell.value, str) and
+                  a_cell.value.lstrip("'").startswith('=')):
+                # a leading ' marks text which would be read back as code
+                return "'" + a_cell.value
             else:
                 return a_cell.value
 
@@ -1319,6 +1320,11 @@ class _CompiledImporter:
 
         elif isinstance(cell_value, str) and cell_value.startswith('='):
             return ExcelOpxWrapper.RangeData(address, cell_value, None)
+
+        elif (isinstance(cell_value, str) and cell_value.startswith("'") and
+              cell_value.lstrip("'").startswith('=')):
+            # text marked as such when it was saved
+            return ExcelOpxWrapper.RangeData(address, '', cell_value[1:])
 
         else:
             return ExcelOpxWrapper.RangeData(address, '', cell_value)
